@@ -25,6 +25,8 @@ def check(repo, tier="quick"):
     res.rule("C09.a", "on every path that invokes the output callback: inverse_wavelet_transform, then clip_picture, then offset_picture have run, in that order, on state['current_picture']")
     res.rule("C09.b", "the callback is invoked at most once, with (current_picture, video_parameters, picture_coding_mode), only when present")
     res.rule("C09.c", "current_picture['pic_num'] is stored from state['picture_number'] and not overwritten")
+    res.rule("C09.e", "component dimensions: subband_width/subband_height (not pinned to a listing) describe a dyadic pyramid: the padding unit equals the level-0 divisor, level 1 has the DC band's size, each further level halves the divisor in the directions its transform acts in, and the horizontal-only / 2D split is at dwt_depth_ho")
+    res.rule("C09.f", "sample ranges: every function in the decoder's reach computes with exact integers (no true division, math.*, float(), round() or float constants), so bit depths and clipping bounds are exact at any signal range")
     res.rule("C09.d", "parse_sequence calls picture_decode exactly after picture_parse and under fragmented_picture_done after fragment_parse; fragmented_picture_done is set exactly when the received slice count reaches slices_x * slices_y")
 
     m, fn = repo.func("pseudocode.picture_decoding:picture_decode")
@@ -119,10 +121,158 @@ def check(repo, tier="quick"):
     im, ifs = repo.func("decoder.fragment_syntax:initialize_fragment_state")
     ok = any(isinstance(n, ast.Assign) and subscript_key(n.targets[0], "state") == "fragmented_picture_done" and isinstance(n.value, ast.Constant) and n.value.value is False for n in ifs.body)
     res.check(ok, "C09.d", "initialize_fragment_state:done-flag-cleared", "%s:initialize_fragment_state" % im.rel, "a new fragmented picture must clear fragmented_picture_done (else the next slice-bearing fragment outputs a second picture)", by="cleared for each new fragmented picture")
+    rule_e(repo, res)
+    rule_f(repo, res)
+    res.floor("C09.e", 6)
+    res.floor("C09.f", 50)
     res.floor("C09.a", 1)
     res.floor("C09.b", 3)
     res.floor("C09.c", 2)
     res.floor("C09.d", 3)
-    res.assumptions = ["dimensions and sample ranges of the output follow from spec-pinned arithmetic (clip_picture, idwt_pad_removal) and are not decided here"]
+    res.assumptions = ["values of decoded samples are arithmetic on runtime data and are not decided; decided are the shape of the dimension formulas (C09.e) and the exactness of the arithmetic (C09.f)"]
     res.trusted = ["spec-pinned lines equal the standard"]
     return res
+
+
+def _shift_exp(e):
+    """e == (1 << X) or X-free power of two: returns X (ast) or None"""
+    if isinstance(e, ast.BinOp) and isinstance(e.op, ast.LShift) and isinstance(e.left, ast.Constant) and e.left.value == 1:
+        return e.right
+    return None
+
+
+def _lin(e, subst=None):
+    """linear form over state keys / names: {term: coeff}; None if not linear"""
+    subst = subst or {}
+    out = {}
+
+    def add(x, c):
+        if isinstance(x, ast.BinOp) and isinstance(x.op, ast.Add):
+            return add(x.left, c) and add(x.right, c)
+        if isinstance(x, ast.BinOp) and isinstance(x.op, ast.Sub):
+            return add(x.left, c) and add(x.right, -c)
+        if isinstance(x, ast.Constant) and isinstance(x.value, int):
+            out[""] = out.get("", 0) + c * x.value
+            return True
+        k = subscript_key(x, "state") or (x.id if isinstance(x, ast.Name) else None)
+        if k is None:
+            return False
+        if k in subst:
+            out[""] = out.get("", 0) + c * subst[k] if isinstance(subst[k], int) else out.get("", 0)
+            if not isinstance(subst[k], int):
+                for kk, vv in subst[k].items():
+                    out[kk] = out.get(kk, 0) + c * vv
+            return True
+        out[k] = out.get(k, 0) + c
+        return True
+
+    if not add(e, 1):
+        return None
+    return {k: v for k, v in out.items() if v != 0}
+
+
+def rule_e(repo, res):
+    m = repo.mod("pseudocode.slice_sizes")
+    HO, D = "dwt_depth_ho", "dwt_depth"
+    spec = {
+        # function: (exponent at level 0, exponent for 1 <= level <= ho, exponent for level > ho) as linear forms in ho, d, level
+        "subband_width": ({HO: 1, D: 1}, {HO: 1, D: 1, "level": -1, "": 1}, {HO: 1, D: 1, "level": -1, "": 1}),
+        "subband_height": ({D: 1}, {D: 1}, {HO: 1, D: 1, "level": -1, "": 1}),
+    }
+    for fname, (e0, e_ho, e_2d) in spec.items():
+        fn = m.funcs.get(fname)
+        if fn is None:
+            raise AnalysisError("anchor vanished: slice_sizes.%s" % fname)
+        where = "%s:%s" % (m.rel, fname)
+        lvl = fn.args.args[1].arg
+        # padding unit
+        scale = padded = None
+        for a in fn.body:
+            if isinstance(a, ast.Assign) and isinstance(a.targets[0], ast.Name) and _shift_exp(a.value) is not None:
+                scale = (a.targets[0].id, _lin(_shift_exp(a.value)))
+            if isinstance(a, ast.Assign) and isinstance(a.targets[0], ast.Name) and scale and isinstance(a.value, ast.BinOp) and isinstance(a.value.op, ast.Mult) and dotted(a.value.left) == scale[0]:
+                r = a.value.right
+                # scale * ((x + scale - 1) // scale)
+                ok_round = isinstance(r, ast.BinOp) and isinstance(r.op, ast.FloorDiv) and dotted(r.right) == scale[0] and isinstance(r.left, ast.BinOp) and norm(r.left).replace(" ", "").endswith("+%s-1" % scale[0])
+                padded = (a.targets[0].id, ok_round)
+        res.check(scale is not None and padded is not None and padded[1], "C09.e", "%s:padded-to-multiple-of-scale" % fname, where, "the padded size must be scale * ((size + scale - 1) // scale) with scale = 1 << (...)", by="rounded up to a multiple of the scale")
+        # branches on level: collect (kind, exponent)
+        exps = {}
+        node = None
+        for a in fn.body:
+            if isinstance(a, ast.If) and isinstance(a.test, ast.Compare) and dotted(a.test.left) == lvl:
+                node = a
+        chain = []
+        while isinstance(node, ast.If):
+            chain.append(node)
+            node = node.orelse[0] if len(node.orelse) == 1 and isinstance(node.orelse[0], ast.If) else None
+        for br in chain:
+            t = br.test
+            op = t.ops[0]
+            cmp_ = t.comparators[0]
+            kind = None
+            if isinstance(op, ast.Eq) and isinstance(cmp_, ast.Constant) and cmp_.value == 0:
+                kind = "zero"
+            elif isinstance(op, ast.LtE) and subscript_key(cmp_, "state") == HO:
+                kind = "ho"
+            elif isinstance(op, ast.Gt) and subscript_key(cmp_, "state") == HO:
+                kind = "2d"
+            ret = [r for r in br.body if isinstance(r, ast.Return)]
+            if kind and len(ret) == 1 and isinstance(ret[0].value, ast.BinOp) and isinstance(ret[0].value.op, ast.FloorDiv) and padded and dotted(ret[0].value.left) == padded[0]:
+                ex = _shift_exp(ret[0].value.right)
+                exps[kind] = _lin(ex) if ex is not None else None
+        res.check(set(exps) == {"zero", "ho", "2d"} and None not in exps.values(), "C09.e", "%s:three-level-ranges" % fname, where, "the divisor must be given as padded // (1 << e) for level == 0, level <= dwt_depth_ho and level > dwt_depth_ho (found %s)" % sorted(exps), by="level 0 / horizontal-only levels / 2D levels")
+        if set(exps) != {"zero", "ho", "2d"} or None in exps.values():
+            continue
+        rename = lambda d: {("level" if k == lvl else k): v for k, v in d.items()}
+        got0, got_ho, got_2d = rename(exps["zero"]), rename(exps["ho"]), rename(exps["2d"])
+        res.check(scale[1] is not None and rename(scale[1]) == got0, "C09.e", "%s:scale-equals-level-0-divisor" % fname, where, "the padding unit is 1 << (%s) but the level-0 band divides by 1 << (%s): the padded size is then not a multiple of the divisor and the decoded component comes out with the wrong size" % (scale[1], got0), by="padding unit = level-0 divisor")
+        res.check(got0 == e0 and got_ho == e_ho and got_2d == e_2d, "C09.e", "%s:dyadic-exponents" % fname, where, "shift exponents are level 0: %s, horizontal-only: %s, 2D: %s; a dyadic pyramid over dwt_depth_ho horizontal-only and dwt_depth 2D levels needs %s / %s / %s" % (got0, got_ho, got_2d, e0, e_ho, e_2d), by="level 0: %s; 1..ho: %s; >ho: %s" % (e0, e_ho, e_2d))
+
+
+FLOAT_CALLS = {"float", "round", "math.log", "math.log2", "math.log10", "math.ceil", "math.floor", "math.sqrt", "math.pow", "math.exp", "pow", "divmod"}
+
+
+def float_ops(fn):
+    out = []
+    for n in ast.walk(fn):
+        if isinstance(n, ast.BinOp) and isinstance(n.op, ast.Div):
+            out.append((n, "true division"))
+        if isinstance(n, ast.AugAssign) and isinstance(n.op, ast.Div):
+            out.append((n, "true division"))
+        if isinstance(n, ast.Call) and ((dotted(n.func) or "") in FLOAT_CALLS and dotted(n.func) not in ("pow", "divmod") or (dotted(n.func) or "").startswith("math.") or (dotted(n.func) or "").startswith("np.") or (dotted(n.func) or "").startswith("numpy.")):
+            out.append((n, "call of %s" % dotted(n.func)))
+        if isinstance(n, ast.Constant) and isinstance(n.value, float):
+            out.append((n, "float constant %r" % n.value))
+        if isinstance(n, ast.BinOp) and isinstance(n.op, ast.Pow) and not (isinstance(n.left, ast.Constant) and isinstance(n.left.value, int)):
+            out.append((n, "power with a non-constant base (negative exponents give floats)"))
+    return out
+
+
+def rule_f(repo, res):
+    from .. import analyses
+
+    # positive fixture (expected count on the repository is zero)
+    fx = ast.parse("def f(n):\n    import math\n    a = n / 2\n    b = int(math.ceil(math.log(n, 2)))\n    return a + b + 0.5 + float(n)\n").body[0]
+    if len(float_ops(fx)) < 5:
+        raise AnalysisError("float-operation scan no longer recognises its positive fixture")
+    res.ok("C09.f", "float-ops:fixture", "vcheck/props/c09.py", by="scan finds the 5 float operations of its positive fixture")
+    reach = analyses.validator_reach(repo)
+    for q in sorted(reach):
+        modn, fname = q.split(":")
+        m = repo.modules.get(modn)
+        if m is None or modn.endswith("decoder.exceptions"):
+            continue  # reporting text, not decoded values
+        fn = None
+        if "." in fname:
+            cn, mn = fname.split(".", 1)
+            cls = m.classes.get(cn)
+            for f in (cls.body if cls is not None else []):
+                if isinstance(f, ast.FunctionDef) and f.name == mn:
+                    fn = f
+        else:
+            fn = m.funcs.get(fname)
+        if fn is None:
+            continue
+        ops = float_ops(fn)
+        res.check(not ops, "C09.f", "integer-only:%s" % fname, "%s:%s" % (m.rel, fname), "%s computes with floating point (%s): bit depths, clipping bounds or dimensions derived from it are inexact for large values" % (fname, "; ".join("%s at line %d" % (w, n.lineno) for n, w in ops[:3])), by="exact integer arithmetic only")
